@@ -51,24 +51,37 @@ Print Assumptions C16_same_session.
    import (claim or file-transfer) into ANY cache - one that already holds a stale, re-issued
    or corrupted-secret entry under the same session id included - leaves exactly the freshly
    derived entry there ... *)
-Theorem C16_import_overwrites : forall (ft : bool) (c : cache) claim io sid e cmds,
+Theorem C16_import_overwrites : forall (ft : bool) (c : cstate) claim io sid e cmds,
   (if ft then import_ft claim io else import_claim claim io) = Ok (sid, e, cmds) ->
-  import_into ft c claim io = (cache_store e c, Ok (sid, e, cmds))
-  /\ cache_lookup sid (fst (import_into ft c claim io)) = Some e.
+  import_into ft c claim io = (cstate_file e cmds c, Ok (sid, e, cmds))
+  /\ cache_lookup sid (cs_entries (fst (import_into ft c claim io))) = Some e.
 Proof. exact import_overwrites. Qed.
 Print Assumptions C16_import_overwrites.
+
+(* ... its command mappings are exactly the new import's (Store drops the ones of the entry
+   it replaces, fix dcd50bb), those of other ids survive unless the same key is claimed ... *)
+Theorem C16_cmds_after_file : forall e cmds s k,
+  In (k, e_id e) (cs_cmds (cstate_file e cmds s)) <-> In k cmds.
+Proof. exact cmds_after_file. Qed.
+Print Assumptions C16_cmds_after_file.
+
+Theorem C16_other_cmds_survive : forall e cmds s k id,
+  id <> e_id e -> existsb (bytes_eqb k) cmds = false ->
+  (In (k, id) (cs_cmds (cstate_file e cmds s)) <-> In (k, id) (cs_cmds s)).
+Proof. exact other_cmds_survive. Qed.
+Print Assumptions C16_other_cmds_survive.
 
 (* ... and so does a mint ... *)
 Theorem C16_mint_overwrites : forall c o secret now m,
   mint o secret now = Ok m ->
-  cache_lookup (m_sid m) (fst (mint_into c o secret now)) = Some (m_entry m).
+  cache_lookup (m_sid m) (cs_entries (fst (mint_into c o secret now))) = Some (m_entry m).
 Proof. exact mint_overwrites. Qed.
 Print Assumptions C16_mint_overwrites.
 
 (* ... hence C16_same_session holds whatever the importing cache held before. *)
 Theorem C16_same_session_any_cache : forall o secret now m io c,
   secret_ok secret -> mint o secret now = Ok m ->
-  exists e, cache_lookup (m_sid m) (fst (import_into false c (m_claim m) io)) = Some e
+  exists e, cache_lookup (m_sid m) (cs_entries (fst (import_into false c (m_claim m) io))) = Some e
     /\ e_key e = e_key (m_entry m) /\ e_proto e = e_proto (m_entry m)
     /\ (forall n, n <> A_User -> plookup n (e_policy e) = plookup n (e_policy (m_entry m)))
     /\ (io_duration_ns io = mo_lifetime_ns o -> e_expiry e = e_expiry (m_entry m))
@@ -123,15 +136,16 @@ Theorem C16_public_of_parsed : forall o secret now m,
 Proof. exact public_of_parsed_mint. Qed.
 Print Assumptions C16_public_of_parsed.
 
-(* Render / parse round trip of the policy text: for EVERY policy whose exported
-   string values contain no ';' (and whose cipher list contains no '.'; policy_safe
-   is a decidable predicate), ImportSecSessionInfo (ExportSecSessionInfo p) carries
-   the exported attributes back, with the documented rewrites: empty strings are not
+(* Render / parse round trip of the policy text, for EVERY policy: whenever
+   ExportSecSessionInfo produces a text, ImportSecSessionInfo of that text carries
+   the exported attributes back (no side condition: since the export-validation fix the
+   code itself refuses the policies whose values contain ';' or whose cipher list
+   contains '.', see C16_export_refuses_unsafe), with the documented rewrites: empty strings are not
    exported (ne), the integer expiry comes back as its decimal text, a multi-cipher
    list travels '.'-delimited and comes back ','-delimited, RemoteVersion comes back
    as its short form. *)
 Theorem C16_policy_roundtrip : forall p info,
-  export_info p = Ok info -> policy_safe p = true ->
+  export_info p = Ok info ->
   exists q, import_info info = Ok q
     /\ get_str q A_Integrity = ne (get_str p A_Integrity)
     /\ get_str q A_Encryption = ne (get_str p A_Encryption)
@@ -142,6 +156,12 @@ Theorem C16_policy_roundtrip : forall p info,
 Proof. exact policy_roundtrip. Qed.
 Print Assumptions C16_policy_roundtrip.
 
+(* the complementary case: such a policy is refused, never rendered into a text that would
+   read back differently *)
+Theorem C16_export_refuses_unsafe : forall p, policy_safe p = false -> export_info p = Err.
+Proof. exact export_unsafe_refused. Qed.
+Print Assumptions C16_export_refuses_unsafe.
+
 (* integer versus string expiry: the decimal text ExportSecSessionInfo writes is read
    back by strconv.ParseInt as the same int64 *)
 Theorem C16_expiry_text_roundtrip : forall z,
@@ -149,12 +169,14 @@ Theorem C16_expiry_text_roundtrip : forall z,
 Proof. exact expiry_text_roundtrip. Qed.
 Print Assumptions C16_expiry_text_roundtrip.
 
-(* Under claim_safe the registered session reflects the minting options (and by
-   C16_same_session so does the importer's): toggles, cipher, command list, short
+(* The registered session reflects the minting options (and by C16_same_session so does
+   the importer's), for EVERY option set that mints (no side condition; option sets with a
+   ';' or '.' in the cipher list or a ';' in the short version are refused:
+   C16_unsafe_options_refused): toggles, cipher, command list, short
    version; a positive lifetime becomes the absolute expiry floor((now+lifetime)/1s)
    in the text, the policy and the cache entry; no lifetime, no expiry. *)
 Theorem C16_mint_reflects_options : forall o secret now m,
-  mint o secret now = Ok m -> claim_safe o = true ->
+  mint o secret now = Ok m ->
   let pol := e_policy (m_entry m) in
   get_str pol A_Encryption = Some (yes_no (mo_enc o))
   /\ get_str pol A_Integrity = Some (yes_no (mo_integ o))
@@ -168,6 +190,11 @@ Theorem C16_mint_reflects_options : forall o secret now m,
       get_str pol A_SessionExpires = None /\ e_expiry (m_entry m) = ExpNone).
 Proof. exact mint_reflects. Qed.
 Print Assumptions C16_mint_reflects_options.
+
+Theorem C16_unsafe_options_refused : forall o secret now,
+  claim_safe o = false -> mint o secret now = Err.
+Proof. exact unsafe_options_refused. Qed.
+Print Assumptions C16_unsafe_options_refused.
 
 (* claim_safe constrains only the cipher list and the version: it holds for every
    sinful (with '#', brackets, parameters), identity, tag, toggle, command list,
